@@ -382,7 +382,8 @@ def production_form(index, rep, rule):
         it.call_hook = hook
         obj = Obj(cls, {"CROP_WASTE_DISTRIBUTION": Rat.atom(("Wd",)), "OG_FRACTION_FAT": Rat.atom(("ff",)), "OG_FRACTION_PROTEIN": Rat.atom(("fp",))}, "self")
         env = {"self": obj, "constants_for_params": Path(("c",)), "greenhouse_fraction_area": gfa, "crops_produced": Rat.atom(("CP",))}
-        rest = [st for st in fn.body[1:] if not isinstance(st, ast.Assert)]
+        first = next((i for i, st in enumerate(fn.body) if any(isinstance(c, ast.Call) and dotted(c.func) == "Food" for c in ast.walk(st))), 1)
+        rest = [st for st in fn.body[first:] if not isinstance(st, ast.Assert)]
         it.exec_block(rest, env)
         return obj
 
